@@ -273,7 +273,7 @@ func (s *c18Core) stmt(c *c18ConnSt, sql string, mode int) c18Reply {
 	case 1:
 		cls, verb, text = "prepare", "PREPARE", "PREPARE "+sql
 	case 2:
-		text = "EXECUTE "+sql
+		text = "EXECUTE " + sql
 	}
 	rep := c18Reply{Res: "ok", Cls: cls, Verb: verb}
 	if !s.armed {
@@ -814,6 +814,13 @@ func c18Exec(c *c18Case) (kit.Outcome, []string) {
 		}
 		o.Classes = append(o.Classes, "nil-despite-fault:"+c.Kind+"@"+strings.Join(w, " "))
 	}
+	for _, tx := range c18Brackets(r.Evs) {
+		if tx.end == "commit" && r.Err != nil {
+			// not demanded either way by the statement (the failure was a tolerated one or hit the
+			// COMMIT of a stalled run); made visible in the histogram
+			o.Classes = append(o.Classes, "note:error-returned-after-commit")
+		}
+	}
 	if c.Kind == "stall" {
 		o.Viol = c18JudgeStall(c, r, r.Evs[fi])
 		return o, tr
@@ -944,8 +951,8 @@ var c18OpList = []*c18Op{
 		},
 		Enum: []c18Args{{U: 1}, {U: 2, Tags: []string{"aa"}}, {U: 3, Tags: []string{"aa", "bb", "cc"}}}},
 	{Name: "UserDelete", Multi: true,
-		Gen: func(rt *rapid.T) c18Args { return c18Args{U: c18GenU(rt, "u"), Hard: rapid.Bool().Draw(rt, "hard")} },
-		Run: func(a dbi.Adapter, x *c18Args) error { return a.UserDelete(c18Uid(x.U), x.Hard) },
+		Gen:  func(rt *rapid.T) c18Args { return c18Args{U: c18GenU(rt, "u"), Hard: rapid.Bool().Draw(rt, "hard")} },
+		Run:  func(a dbi.Adapter, x *c18Args) error { return a.UserDelete(c18Uid(x.U), x.Hard) },
 		Enum: []c18Args{{U: 1, Hard: true}, {U: 1}}},
 	{Name: "UserUpdate", Multi: true,
 		Gen: func(rt *rapid.T) c18Args {
@@ -1032,7 +1039,7 @@ var c18OpList = []*c18Op{
 		Gen: func(rt *rapid.T) c18Args {
 			return c18Args{Topic: "grpAbc", Chan: rapid.Bool().Draw(rt, "chan"), Hard: rapid.Bool().Draw(rt, "hard")}
 		},
-		Run: func(a dbi.Adapter, x *c18Args) error { return a.TopicDelete(x.Topic, x.Chan, x.Hard) },
+		Run:  func(a dbi.Adapter, x *c18Args) error { return a.TopicDelete(x.Topic, x.Chan, x.Hard) },
 		Enum: []c18Args{{Topic: "grpAbc", Hard: true}, {Topic: "grpAbc", Hard: true, Chan: true}, {Topic: "grpAbc"}, {Topic: "grpAbc", Chan: true}}},
 	{Name: "TopicUpdate", Multi: true,
 		Gen: func(rt *rapid.T) c18Args {
@@ -1067,7 +1074,7 @@ var c18OpList = []*c18Op{
 		Run:  func(a dbi.Adapter, x *c18Args) error { return a.SubsDelete(x.Topic, c18Uid(x.U)) },
 		Enum: []c18Args{{U: 1, Topic: "grpAbc"}}},
 	{Name: "SubsDelForUser", Multi: true,
-		Gen:  func(rt *rapid.T) c18Args { return c18Args{U: c18GenU(rt, "u"), Hard: rapid.Bool().Draw(rt, "hard")} },
+		Gen: func(rt *rapid.T) c18Args { return c18Args{U: c18GenU(rt, "u"), Hard: rapid.Bool().Draw(rt, "hard")} },
 		Run: func(a dbi.Adapter, x *c18Args) error {
 			// not part of the Adapter interface, but an exported transactional method of both SQL adapters
 			return a.(interface{ SubsDelForUser(t.Uid, bool) error }).SubsDelForUser(c18Uid(x.U), x.Hard)
@@ -1128,7 +1135,9 @@ var c18OpList = []*c18Op{
 		Run:  func(a dbi.Adapter, x *c18Args) error { return a.CredDel(c18Uid(x.U), x.Method, x.Value) },
 		Enum: []c18Args{{U: 1}, {U: 1, Method: "email"}, {U: 1, Method: "email", Value: "a@example.com"}}},
 	{Name: "FileFinishUpload", Multi: true,
-		Gen: func(rt *rapid.T) c18Args { return c18Args{U: c18GenU(rt, "u"), Success: rapid.Bool().Draw(rt, "success")} },
+		Gen: func(rt *rapid.T) c18Args {
+			return c18Args{U: c18GenU(rt, "u"), Success: rapid.Bool().Draw(rt, "success")}
+		},
 		Run: func(a dbi.Adapter, x *c18Args) error {
 			fd := &t.FileDef{User: c18Uid(x.U).String(), MimeType: "image/png", Location: "loc"}
 			fd.SetUid(c18Uid(x.U + 100))
@@ -1306,7 +1315,7 @@ func c18Replay(tt *testing.T, r *kit.Run) bool {
 		fmt.Printf("REPLAY-VIOLATION sig=%s %s\n", o.Viol.Sig, o.Viol.Msg)
 		tt.Fatalf("violation %s: %s", o.Viol.Sig, o.Viol.Msg)
 	}
-	fmt.Printf("REPLAY-OK nontrivial=%v classes=%v\n", o.NonTrivial, o.Classes)
+	fmt.Printf("REPLAY-OK nontrivial=%v classes=%v\n    %s\n", o.NonTrivial, o.Classes, strings.Join(tr, "\n    "))
 	return true
 }
 
@@ -1350,8 +1359,9 @@ func c18RapidUnit(tt *testing.T, unit string) {
 
 // c18ScriptVariants derives result scripts from the fault-free default run of an argument
 // variant: each UPDATE/DELETE answering 0 rows (one at a time, and all), each INSERT answering
-// duplicate key (one at a time), each SELECT answering 0/1/3 rows; in the thorough tier also
-// all pairs of such deviations.
+// duplicate key (one at a time), each SELECT answering 0/1/3 rows; with pairs=true also all
+// pairs of such deviations. Scripts whose fault-free trace has the same shape as an earlier
+// one are dropped.
 func c18ScriptVariants(op string, a c18Args, pairs bool) []c18Script {
 	base := c18Case{Op: op, A: a}
 	dry := c18Dry(&base)
@@ -1451,12 +1461,11 @@ func c18EnumUnit(tt *testing.T, unit string) {
 	if c18Replay(tt, r) {
 		return
 	}
-	thorough := kit.Tier() == "thorough"
 	var cases []*c18Case
 	scenarios := 0
 	for _, op := range c18OpList {
 		for _, a := range op.Enum {
-			for _, s := range c18ScriptVariants(op.Name, a, thorough) {
+			for _, s := range c18ScriptVariants(op.Name, a, true) {
 				scenarios++
 				base := c18Case{Op: op.Name, A: a, S: s}
 				pos := c18Positions(c18Dry(&base).Evs)
@@ -1540,6 +1549,10 @@ func c18StallUnit(tt *testing.T, unit string) {
 	if c18Replay(tt, r) {
 		return
 	}
+	if kit.Tier() != "thorough" {
+		r.Extra("quick_tier", "not run: real-time unit, thorough tier only")
+		return
+	}
 	var cases []*c18Case
 	for _, op := range c18OpList {
 		for _, a := range op.Enum {
@@ -1552,11 +1565,7 @@ func c18StallUnit(tt *testing.T, unit string) {
 		}
 	}
 	total := len(cases)
-	def := 1 << 30
-	if kit.Tier() != "thorough" {
-		def = 16
-	}
-	limit := kit.N(def)
+	limit := kit.N(1 << 30)
 	stride, off := 1, 0
 	if total > limit {
 		stride = (total + limit - 1) / limit
@@ -1621,7 +1630,7 @@ func c18ShowUnit(tt *testing.T) {
 	defer c18Cleanup()
 	for _, op := range c18OpList {
 		for _, a := range op.Enum {
-			for _, s := range c18ScriptVariants(op.Name, a, os.Getenv("C18_SHOW") == "2") {
+			for _, s := range c18ScriptVariants(op.Name, a, true) {
 				c := c18Case{Op: op.Name, A: a, S: s}
 				d := c18Dry(&c)
 				b, _ := json.Marshal(c)
